@@ -616,6 +616,7 @@ class C13(Prop):
         "the IR of each initialiser is taken from the non-const variant of the same declaration and serialised by the harness; variables, globals and sizeof of non-scalars are outside the model (X)",
         "floating point via Flocq binary32/binary64 (half carries single precision, as in the code); NaN payloads are canonicalised",
         "the asserts on mixed enum / non-enum operands and `~` on a non-integer constant are modelled as Panic and excluded from the theorem's domain by wf_expr only through reachability (the typer inserts casts); they are exercised by the correspondence run",
+        "the other positions that demand a constant (explicit enum values, case labels, array sizes, numthreads arguments) are observed on the implementation: Q cases put one int expression in each and every position must report the value the const initialiser has (which the model checks)",
         "enum values: coq/model/EnumVals.v mirrors the successor rule of parse_rootdefinition_enum and the underlying-type selection of end_enum (hand-written; the translator checks the shape of both functions, N cases compare enums of 1..4 enumerators from first values at the ends of every range); `C13_enum_values_exact` shows the values are the consecutive integers",
     ]
 
@@ -626,9 +627,26 @@ class C13(Prop):
         return model.split(" ; ")[0] if model else model
 
     def comparable(self, case, impl, model):
+        if case.split()[1:2] == ["Q"]:
+            return False
         return not (impl.startswith("REJECT") or impl.startswith("IR-CHANGED") or impl.startswith("BAD"))
 
     def oracle(self, case, impl, model=None):
+        if case.split()[1:2] == ["Q"]:
+            # the same expression in every position that demands a constant: one value
+            if not impl.startswith("POS "):
+                return "constant evaluation aborted: " + impl if impl.startswith("PANIC") else None
+            f = dict(x.split("=", 1) for x in impl.split()[1:])
+            v = f["const"]
+            for pos in ("enum", "case", "array", "threads"):
+                if pos not in f:
+                    continue
+                got = f[pos].split(":")[-1] if pos == "case" and not f[pos].startswith(("REJECT", "PANIC")) else f[pos]
+                if got.startswith("PANIC"):
+                    return "expression %s aborts the compiler as %s" % (case.split(" # ")[1], pos)
+                if got != v:
+                    return "expression %s is %s as a const initialiser and %s as %s" % (case.split(" # ")[1], v, f[pos], {"enum": "an enum value", "case": "a case label", "array": "an array size", "threads": "a numthreads argument"}[pos])
+            return None
         if not model or " ; " not in model or not self.comparable(case, impl, model):
             return None
         ref = model.split(" ; ")[1]
@@ -641,11 +659,15 @@ class C13(Prop):
     def nontrivial(self, case, impl):
         if case.split()[1:2] == ["N"]:
             return impl.startswith("ENUM")
+        if case.split()[1:2] == ["Q"]:
+            return impl.startswith("POS") and impl.count("=") >= 3
         return case.count(" B ") + case.count(" U ") + case.count(" C ") >= 2
 
     def kind(self, case):
         if case.split()[1:2] == ["N"]:
             return "enum successors " + case.split()[4 if case.split()[3] == "i" else 3]
+        if case.split()[1:2] == ["Q"]:
+            return "constant positions"
         ir = case.split(" # ")[0]
         n = ir.count(" B ") + ir.count(" U ") + ir.count(" C ")
         return "%s nodes=%s" % (case.split(" # ")[1] if " # " in case else "?", n if n < 4 else ("4-8" if n <= 8 else "9+"))
